@@ -16,6 +16,7 @@ package rpc
 
 import (
 	"github.com/logrange/logrange/api"
+	"github.com/logrange/logrange/pkg/utils"
 	"github.com/logrange/range/pkg/utils/bytes"
 	"github.com/logrange/range/pkg/utils/encoding/xbinary"
 )
@@ -59,21 +60,21 @@ func unmarshalLogEvent(buf []byte, res *api.LogEvent, newBuf bool) (int, error) 
 	nn := n
 	res.Timestamp = int64(v)
 
-	n, msg, err := xbinary.UnmarshalString(buf[nn:], newBuf)
+	n, msg, err := utils.UnmarshalString(buf[nn:], newBuf)
 	nn += n
 	if err != nil {
 		return nn, err
 	}
 	res.Message = msg
 
-	n, tags, err := xbinary.UnmarshalString(buf[nn:], newBuf)
+	n, tags, err := utils.UnmarshalString(buf[nn:], newBuf)
 	nn += n
 	if err != nil {
 		return nn, err
 	}
 	res.Tags = tags
 
-	n, res.Fields, err = xbinary.UnmarshalString(buf[nn:], newBuf)
+	n, res.Fields, err = utils.UnmarshalString(buf[nn:], newBuf)
 	nn += n
 	return nn, err
 }
@@ -128,14 +129,14 @@ func unmarshalQueryRequest(buf []byte, qr *api.QueryRequest, newBuf bool) (int, 
 	nn := n
 	qr.ReqId = v
 
-	n, s, err := xbinary.UnmarshalString(buf[nn:], newBuf)
+	n, s, err := utils.UnmarshalString(buf[nn:], newBuf)
 	nn += n
 	if err != nil {
 		return nn, err
 	}
 	qr.Query = s
 
-	n, s, err = xbinary.UnmarshalString(buf[nn:], newBuf)
+	n, s, err = utils.UnmarshalString(buf[nn:], newBuf)
 	nn += n
 	if err != nil {
 		return nn, err
